@@ -271,12 +271,14 @@ def gen_graph(rs, n, shape):
 SHAPES = ["chain", "chain_rev", "star", "tree", "tree", "cyclic", "forest", "hub_absent", "dups"]
 
 
-def gen_topology(rs, n, shape, deco=True, selfbond=False):
-    """ground truth of a generated topology"""
-    numbers, cur = [], int(rs.randint(1, 50)) if deco else 1
+def gen_topology(rs, n, shape, deco=True, selfbond=False, bonds=None, spread=None):
+    """ground truth of a generated topology.  bonds: explicit 0-based bond list instead of a shape;
+    spread: gapped numbering and bonds over the three sections (default: as deco)"""
+    spread = deco if spread is None else spread
+    numbers, cur = [], int(rs.randint(1, 50)) if spread else 1
     for _ in range(n):
         numbers.append(cur)
-        cur += 1 if (not deco or rs.randint(0, 3)) else int(rs.randint(2, 40))
+        cur += 1 if (not spread or rs.randint(0, 3)) else int(rs.randint(2, 40))
     resid, atoms = 1, []
     rn = gen_name(rs, 4, "")
     for k in range(n):
@@ -284,13 +286,13 @@ def gen_topology(rs, n, shape, deco=True, selfbond=False):
             resid += int(rs.randint(1, 3))
             rn = gen_name(rs, 4, "")
         atoms.append((gen_name(rs, 4, "'*") if deco else "A%d" % k, rn, resid))
-    bonds = gen_graph(rs, n, shape)
+    bonds = gen_graph(rs, n, shape) if bonds is None else list(bonds)
     if selfbond and n:
         k = int(rs.randint(0, n))
         bonds = bonds + [(k, k)]
     secs = {"constraints": [], "bonds": [], "pairs": []}
     for b in bonds:
-        key = pick(rs, ["bonds", "bonds", "constraints", "pairs"]) if deco else "bonds"
+        key = pick(rs, ["bonds", "bonds", "constraints", "pairs"]) if spread else "bonds"
         secs[key].append(b)
     return {"name": gen_name(rs, 8, "_-+") if deco else "MOL", "atoms": atoms, "numbers": numbers, "secs": secs,
             "shape": shape}
@@ -384,6 +386,41 @@ def render_topology(rs, t, deco=True, final_newline=True):
     if final_newline:
         text += "\n"
     return text
+
+
+def tree_on(rs, nodes, shuffle=True):
+    """random tree on the given node labels"""
+    nodes = [int(x) for x in (rs.permutation(nodes) if shuffle else nodes)]
+    return [(nodes[int(rs.randint(0, k))], nodes[k]) for k in range(1, len(nodes))]
+
+
+def boundary_graphs(rs):
+    """(label, n, bonds): sizes around 500 and beyond (an implementation may switch algorithm with the size),
+    connected graphs and forests whose isolated atoms / second component sit at the end, the start or the middle
+    of the file order.  The expected connectivity comes from union-find, not from the label."""
+    out = []
+    big = [int(800 + rs.randint(0, 40)), int(1200 + rs.randint(0, 60))]
+    for n in [499, 500, 501, 502] + big:
+        kind = int(rs.randint(0, 3))
+        bonds = tree_on(rs, range(n))
+        if kind == 1:
+            bonds += [(int(rs.randint(0, n)), int(rs.randint(0, n))) for _ in range(30)]
+            bonds = [b for b in bonds if b[0] != b[1]]
+        elif kind == 2:
+            bonds = [(k, k + 1) for k in range(n - 1)]
+        out.append(("connected_%d" % n, n, bonds))
+    for n in [500, 501, int(520 + rs.randint(0, 200))] + big:
+        k = int(rs.randint(1, 5))
+        mid = int(rs.randint(1, n - 1))
+        out.append(("isolated_last_%d" % n, n, tree_on(rs, range(n - 1))))
+        out.append(("isolated_trailing%d_%d" % (k, n), n, tree_on(rs, range(n - k))))
+        out.append(("isolated_first_%d" % n, n, tree_on(rs, range(1, n))))
+        out.append(("isolated_middle_%d" % n, n, tree_on(rs, [x for x in range(n) if x != mid])))
+        out.append(("chain_then_isolated_%d" % n, n, [(j, j + 1) for j in range(n - 2)]))
+        out.append(("two_components_%d" % n, n, tree_on(rs, range(n // 2)) + tree_on(rs, range(n // 2, n))))
+        cyc = tree_on(rs, range(n - 1)) + [(int(rs.randint(0, n - 1)), int(rs.randint(0, n - 1))) for _ in range(40)]
+        out.append(("cyclic_then_isolated_%d" % n, n, [b for b in cyc if b[0] != b[1]]))
+    return out
 
 
 # ------------------------------------------------------------------ union-find (S oracle of C15)
